@@ -761,6 +761,9 @@ func (fc *FCtx) specCall(n *SNode, env *Env) Val {
 	case "wrapu64":
 		evalArgs()
 		return Val{T: app("wrap_uint64", args[0].T), S: SInt}
+	case "pow2":
+		evalArgs()
+		return Val{T: app("pow2", args[0].T), S: SInt}
 	case "wrapu32":
 		evalArgs()
 		return Val{T: app("wrap_uint32", args[0].T), S: SInt}
